@@ -4,6 +4,7 @@ import MCHap.Proofs.PedigreeValid
 import MCHap.Proofs.PedigreeEnumSmall
 import MCHap.Proofs.PedigreeComplete
 import MCHap.Proofs.PedigreeBridge
+import Mathlib.Data.Multiset.Bind
 
 /-!
 # C17 — the pedigree inheritance model is a proper probability distribution; zero iff invalid
@@ -525,5 +526,47 @@ example :
     ((compositions 2 2).map (fun d => trioPmf { exTrio with d := d, dp := [1, 1], dq := [2, 2], pp := 2, tp := 0, tq := 2, lp := 0, lq := 1/2, fs := [1/3, 2/3] })).sum = 1 ∧
     ((compositions 2 4).map (fun d => trioPmf { exTrio with d := d, dp := [0, 0], dq := [2, 2], pp := 0, tp := 2, tq := 2, lp := 0, ep := 1, fs := [1/3, 2/3] })).sum = 1 := by
   decide +kernel
+
+/-! ### the order of the two parents does not matter -/
+
+/-- the same trio with the roles of the two parents exchanged -/
+def _root_.MCHap.Trio.swap (T : Trio) : Trio :=
+  { T with dp := T.dq, dq := T.dp, pp := T.pq, pq := T.pp, tp := T.tq, tq := T.tp,
+           lp := T.lq, lq := T.lp, ep := T.eq, eq := T.ep }
+
+/-- **the inheritance probability does not depend on which parent is listed first** -/
+theorem trioPmf_swap (T : Trio) : trioPmf T.swap = trioPmf T := by
+  unfold trioPmf Trio.swap
+  simp only
+  have hp : ∀ (n a b : ℕ), ((gametePairs n a b : List (List ℕ × List ℕ)) : Multiset (List ℕ × List ℕ))
+      = ((compositions n a : List (List ℕ)) : Multiset (List ℕ)) ×ˢ ((compositions n b : List (List ℕ)) : Multiset (List ℕ)) := by
+    intro n a b
+    rw [Multiset.coe_product]; rfl
+  rw [← Multiset.sum_coe, ← Multiset.sum_coe, ← Multiset.map_coe, ← Multiset.map_coe,
+    ← Multiset.filter_coe, ← Multiset.filter_coe, hp, hp, ← Multiset.map_swap_product,
+    Multiset.filter_map, Multiset.map_map]
+  have h1 : Multiset.filter ((fun ab : List ℕ × List ℕ => vadd ab.1 ab.2 = T.d) ∘ Prod.swap)
+        ((compositions T.d.length T.tp : Multiset (List ℕ)) ×ˢ (compositions T.d.length T.tq : Multiset (List ℕ)))
+      = Multiset.filter (fun ab : List ℕ × List ℕ => vadd ab.1 ab.2 = T.d)
+        ((compositions T.d.length T.tp : Multiset (List ℕ)) ×ˢ (compositions T.d.length T.tq : Multiset (List ℕ))) := by
+    apply Multiset.filter_congr
+    intro ab _
+    simp only [Function.comp, Prod.swap]
+    rw [MCHap.vadd_comm]
+  rw [h1]
+  congr 1
+  apply Multiset.map_congr rfl
+  intro ab _
+  simp only [Function.comp, Prod.swap]
+  ring
+
+/-- duos in the other orientation (parent p unknown, parent q known with zero error) -/
+theorem duo_positive_iff_valid_q (T : Trio) (n : ℕ) (hd : T.d.length = n) (hdq : T.dq.length = n)
+    (hsum : T.d.sum = T.tp + T.tq) (heq : T.eq = 0) (hpq : T.pq ≠ 0) (hpp : T.pp = 0)
+    (hf : ∀ f ∈ T.fs, 0 < f)
+    (hq : T.dq.sum = T.pq ∧ T.tq ≤ T.pq ∧ 0 ≤ T.lq ∧ T.lq < 1 ∧ (T.lq ≠ 0 → T.tq = 2)) :
+    0 < trioPmf T ↔ duoValid T.d T.dq T.tq T.lq = some true := by
+  rw [← trioPmf_swap T]
+  exact duo_positive_iff_valid T.swap n hd hdq (by show T.d.sum = T.tq + T.tp; omega) heq hpq hpp hf hq
 
 end MCHap.C17
